@@ -58,7 +58,7 @@ def fault_values():
     return [None] + [bytes(range(0x31, 0x31 + w)) for w in (1, 2, 4, 8)]
 
 
-NAMES_FULL = [None] + D.NAMES + ["n" * 255]
+NAMES_FULL = [None] + D.NAMES + ["n" * 255, "data/", "./a.txt", "/tmp//x", "a/../b"]  # the last four: spellings a path normaliser would rewrite
 NAMES_EDGE = [None, "a", "ä", "n" * 255]
 CHK_FULL = [v.to_bytes(4, "big") for v in D.dedupe(D.edge(32) + [0x01020304])]
 CHK_EDGE = [bytes(4), b"\xff" * 4, bytes([1, 2, 3, 4]), b"\xaa" * 4]
